@@ -191,11 +191,19 @@ fn rec_obs<K: EnrKey>(e: &Enr<K>) -> String {
     let dbgp = format!("{e:#?}");
     let nid_dbg = format!("{:?}", e.node_id());
     let dbgp_ok = dbgp.contains(&nid_dbg) && !dbgp.contains("0x0x") && dbg.contains(&nid_dbg);
+    // formatting with width / precision / fill flags must not panic (the results are not compared: only plain
+    // `{}` is pinned by the text-form property)
+    let flagged = [
+        format!("{e:.400}"), format!("{e:.3}"), format!("{e:.0}"), format!("{e:600}"), format!("{e:>8.2}"), format!("{e:*^700.650}"),
+        format!("{:.3}", e.node_id()), format!("{:80}", e.node_id()), format!("{:.100}", e.node_id()), format!("{:.3?}", e.node_id()),
+        format!("{e:.5?}"), format!("{e:300?}"),
+    ];
+    let flagged_ok = flagged.iter().all(|s| s.len() < 1 << 20);
     let into: Vec<(Vec<u8>, Bytes)> = e.clone().into_iter().collect();
     let same_iter = into.len() == e.iter().count()
         && into.iter().zip(e.iter()).all(|((k1, v1), (k2, v2))| k1 == k2 && v1.as_ref() == v2);
     let nid_conv = NodeId::from(e) == e.node_id() && NodeId::from(e.clone()) == e.node_id();
-    let _ = write!(o, " glue={}", (absent && !dbg.is_empty() && dbgp_ok && same_iter && nid_conv) as u8);
+    let _ = write!(o, " glue={}", (absent && !dbg.is_empty() && dbgp_ok && same_iter && nid_conv && flagged_ok) as u8);
     // is the record accepted again by the decoder, as itself?
     let mut enc2 = Vec::new();
     e.encode(&mut enc2);
@@ -206,6 +214,18 @@ fn rec_obs<K: EnrKey>(e: &Enr<K>) -> String {
     let _ = logs();
     let _ = write!(o, " redec={}", redec as u8);
     o
+}
+
+/// an iterator adapter whose size hint is as unhelpful as a lazy iterator's can legally be
+struct HugeHint<I>(I);
+impl<I: Iterator> Iterator for HugeHint<I> {
+    type Item = I::Item;
+    fn next(&mut self) -> Option<I::Item> {
+        self.0.next()
+    }
+    fn size_hint(&self) -> (usize, Option<usize>) {
+        (0, Some(usize::MAX))
+    }
 }
 
 fn guarded<F: FnOnce() -> String>(f: F) -> String {
@@ -329,7 +349,15 @@ fn run_op<K: Kt>(st: &mut State<K>, t: &[&str]) -> String {
                         })
                         .collect()
                 };
-                e.remove_insert(rk.iter(), ik.iter().map(|(k, v)| (k.clone(), v.as_slice())), key)
+                // every other call passes lazy iterators whose size hints say nothing useful (0, Some(usize::MAX)),
+                // as `(0..).map(..).take_while(..)` would: the result must not depend on the hints
+                let lazy = (rk.len() + ik.len()) % 2 == 1;
+                let res = if lazy {
+                    e.remove_insert(HugeHint(rk.iter()), HugeHint(ik.iter().map(|(k, v)| (k.clone(), v.as_slice()))), key)
+                } else {
+                    e.remove_insert(rk.iter(), ik.iter().map(|(k, v)| (k.clone(), v.as_slice())), key)
+                };
+                res
                     .map(|(r, i)| {
                         let f = |v: &Vec<Option<Bytes>>| {
                             if v.is_empty() {
@@ -585,7 +613,14 @@ fn run<K: Kt>(input: &mut dyn BufRead, out: &mut dyn Write) {
                 let i: usize = t[1].parse().unwrap();
                 match &st.cur {
                     Some(e) => {
-                        st.saved.insert(i, e.clone());
+                        // an occupied slot is refreshed in place (Clone::clone_from, as Vec / Option do for their
+                        // elements); an empty one gets a fresh clone
+                        match st.saved.get_mut(&i) {
+                            Some(slot) => slot.clone_from(e),
+                            None => {
+                                st.saved.insert(i, e.clone());
+                            }
+                        }
                         "saved".into()
                     }
                     None => "norec".into(),
